@@ -86,7 +86,7 @@ class C04(Property):
     translators = [stepguards.generate]
     rule = ("random well-formed DAG workflows (sfv.rt.wfgen: 2..12 nodes from the real step classes — transformers, scatter/gather "
             "incl. unknown-size and depth-2 gathers, dot / cartesian combinators, conditional steps, schedule/transfer/execute job "
-            "pipelines) run on the real StreamFlowExecutor under the default asyncio order and 3 (quick) / 6 (thorough) PRNG task "
+            "pipelines) run on the real StreamFlowExecutor under the default asyncio order and 2 (quick) / 6 (thorough) PRNG task "
             "interleavings each; half of the workflows additionally with one injected failure (a transformer raising on one tag, or a "
             "scatter fed a non-list so that the exception escapes run() into the executor). Oracle per run: executor "
             "return/raise, hang watchdog, every step terminated at the moment run() exits, one termination token per port, no pending "
@@ -115,15 +115,15 @@ class C04(Property):
         "workflow output, multi-input grouping steps see the same tag set on all inputs",
         "a failure is a step raising inside its run loop (status FAILED); recovery (failure manager) is not enabled in these runs",
     ]
-    quick_budget_s = 420
+    quick_budget_s = 600
     thorough_budget_s = 2400
-    min_nontrivial = 20
+    min_nontrivial = 12
 
     def _plan(self, ctx: Ctx):
         if ctx.tier == "thorough":
             n, k = 200, 6
         else:
-            n, k = 50, 3
+            n, k = 40, 2
         if ctx.mode == "search":
             n, k = n * 2, k * 3
         return n, k
@@ -136,6 +136,11 @@ class C04(Property):
         for i in range(n):
             if ctx.out_of_time():
                 ctx.extra["incomplete"] = True
+                break
+            if ctx.mode == "check" and ((i >= 20 and ctx.tier == "quick" and ctx.time_left() < 0.5 * self.quick_budget_s) or
+                                        (i >= 60 and ctx.tier == "thorough" and ctx.time_left() < 0.4 * self.thorough_budget_s)):
+                # heavily loaded machine: the plan is "up to n workflows", at least 20 (quick) / 60 (thorough), corpus included
+                ctx.notes.append(f"soft time limit: stopped after {i} of {n} planned workflows")
                 break
             if hangs >= 4:
                 ctx.notes.append("stopped generating after 4 hanging runs (each costs the whole watchdog time)")
@@ -151,12 +156,8 @@ class C04(Property):
                 failing = False
             run_spec = fspec or spec
             seeds = [rng.randrange(1 << 30) for _ in range(k)]
-            runs = []
-            for j, sd in enumerate([None] + seeds):
-                # default asyncio order first, then the PRNG schedules; a hanging workflow is not run again
-                runs += wfcheck.run_schedules(run_spec, [] if sd is None else [sd], ctx.scratch, timeout=20.0, plain_first=sd is None)
-                if runs[-1]["outcome"]["kind"] == "hang":
-                    break
+            # default asyncio order first, then the PRNG schedules; a hanging workflow is not run again
+            runs = wfcheck.run_schedules(run_spec, seeds, ctx.scratch, timeout=20.0, stop_on_hang=True)
             hangs += sum(1 for r in runs if r["outcome"]["kind"] == "hang" and not any(
                 k == KNOWN_LOOP_HANG for k, _ in oracle(run_spec, r, failing)))
             fail_node = _fail_node(run_spec)
@@ -167,7 +168,7 @@ class C04(Property):
             for r in runs:
                 ctx.count("runs")
                 if r["outcome"]["kind"] == "harness-error":
-                    ctx.notes.append(f"harness error: {r['outcome']['detail'][:200]}")
+                    ctx.notes.append(f"harness error: {r['outcome']['detail'][:1500]}")
                     ctx.count("harness-error")
                     continue
                 for fkey, detail in oracle(run_spec, r, failing):
